@@ -183,6 +183,7 @@ FILE *__real_fopen(const char *, const char *);
 int __real_fclose(FILE *);
 FILE *__real_fmemopen(void *, size_t, const char *);
 int __real_stat(const char *, struct stat *);
+int __real_lstat(const char *, struct stat *);
 int __real_fstat(int, struct stat *);
 int __real_fileno(FILE *);
 char *__real_getenv(const char *);
@@ -429,7 +430,7 @@ void sim_free(void *p, const char *func, int unit)
 // ------------------------------------------------------------------ S3 file namespace
 
 // Path lookup as a file system does it: runs of '/' count as one; a trailing '/' demands a directory.
-static sim::FsNode *fs_lookup(const char *path, int *err)
+static sim::FsNode *fs_lookup(const char *path, int *err, bool follow = true, int hops = 0)
 {
 	std::string p;
 	for (const char *c = path; *c; c++)
@@ -442,6 +443,15 @@ static sim::FsNode *fs_lookup(const char *path, int *err)
 	if (it == W.fs.end()) {
 		*err = ENOENT;
 		return nullptr;
+	}
+	if (it->second.kind == sim::FS_LINK && (follow || want_dir)) {
+		// symbolic link (final component only: the simulated namespace is flat below its directories)
+		if (hops >= 8) {
+			*err = ELOOP;
+			return nullptr;
+		}
+		std::string target = it->second.bytes + (want_dir ? "/" : "");
+		return fs_lookup(target.c_str(), err, true, hops + 1);
 	}
 	if (want_dir && it->second.kind != sim::FS_DIR) {
 		*err = ENOTDIR;
@@ -534,6 +544,25 @@ int __wrap_stat(const char *path, struct stat *st)
 	st->st_mode = np->kind == sim::FS_DIR ? (S_IFDIR | 0755) : (S_IFREG | 0644);
 	if (np->kind == sim::FS_NOPERM)
 		st->st_mode = S_IFREG; // exists, no permission bits
+	st->st_size = (off_t)np->bytes.size();
+	return 0;
+}
+
+int __wrap_lstat(const char *path, struct stat *st)
+{
+	if (!W.in_lib)
+		return sim::__real_lstat(path, st);
+	W.stat_calls++;
+	int lerr = 0;
+	sim::FsNode *np = fs_lookup(path, &lerr, false);
+	if (!np) {
+		errno = lerr;
+		return -1;
+	}
+	memset(st, 0, sizeof(*st));
+	st->st_mode = np->kind == sim::FS_DIR ? (S_IFDIR | 0755) : np->kind == sim::FS_LINK ? (S_IFLNK | 0777) : (S_IFREG | 0644);
+	if (np->kind == sim::FS_NOPERM)
+		st->st_mode = S_IFREG;
 	st->st_size = (off_t)np->bytes.size();
 	return 0;
 }
